@@ -373,6 +373,42 @@ func main() {
 				}
 			}
 		}
+		// typed vs generic for smart clipping: Geometry(box, g, o) is the typed result for g's kind (nil for nothing,
+		// the polygon itself for one, the multi-polygon otherwise), for boxes around, inside and across the data
+		for _, sb := range []orb.Bound{box, {Min: orb.Point{0.25, 0.25}, Max: orb.Point{1.75, 1.75}}, {Min: orb.Point{0.25, -1}, Max: orb.Point{3, 3}}} {
+			for _, o := range []orb.Orientation{orb.CCW, orb.CW} {
+				var typed func() orb.MultiPolygon
+				switch v := g.(type) {
+				case orb.Ring:
+					typed = func() orb.MultiPolygon { return smartclip.Ring(sb, v.Clone(), o) }
+				case orb.Polygon:
+					typed = func() orb.MultiPolygon { return smartclip.Polygon(sb, v.Clone(), o) }
+				case orb.MultiPolygon:
+					typed = func() orb.MultiPolygon { return smartclip.MultiPolygon(sb, v.Clone(), o) }
+				}
+				if typed == nil {
+					continue
+				}
+				var mp orb.MultiPolygon
+				var got orb.Geometry
+				_, p1 := try(func() interface{} { mp = typed(); return nil })
+				_, p2 := try(func() interface{} { got = smartclip.Geometry(sb, orb.Clone(g), o); return nil })
+				if p1 != "" || p2 != "" {
+					continue
+				}
+				var want orb.Geometry
+				switch {
+				case mp == nil:
+				case len(mp) == 1:
+					want = mp[0]
+				default:
+					want = mp
+				}
+				if refgeom.Struct(got) != refgeom.Struct(want) {
+					c.Failf("typed-vs-generic", "smartclip.Geometry(%v, %s, %d) = %v, the typed function gives %v", sb, desc, o, got, want)
+				}
+			}
+		}
 		// typed vs generic for tile covers: Geometry(g) is what the function for g's kind returns (degenerate
 		// one-vertex lines and rings included), and a collection's cover is the union of its members' covers
 		for _, z := range []maptile.Zoom{0, 3, 12} {
